@@ -607,3 +607,246 @@ Proof. repeat split; try (vm_compute; reflexivity); discriminate. Qed.
 Print Assumptions C06_ts_vmean_binary64_error.
 Print Assumptions C06_history_independence_up_to_rounding_ts_vmean.
 Print Assumptions C06_ts_vsum_exact_on_grid_local.
+
+(* ---- (C) X28: the extrema / arg-extrema / rank family at EVERY ordered carrier, incl. binary64 -------------------
+   (4) / (6) above are at the integer carrier; (10) holds at every carrier but only in the form "IF the whole call
+   returns THEN the prefix call returns the prefix".  With the closed forms of Props/C03.v for every carrier satisfying
+   the order laws `OrdLaws A` of Spec/ExtremaOrd.v (Z, option R, Coq's primitive binary64 `float`) the whole call always
+   returns on a series whose valid elements are not NaN (`valid_not_nan`: automatic when NaN IS the null; for
+   Option<f64> it excludes Some(NaN), DESIGN 5.4), so (Proofs/MaskOrd.v):
+     prefix      — UNCONDITIONAL: the call on the whole series returns some `out` of the input length and the call on
+                   the prefix returns `firstn k out`, bit for bit; every cut k, window >= 1, both bodies, the min_periods
+                   condition of DESIGN 5.3 (`cmp_dom`, as in (4));
+     window-only — two series of any lengths and histories, each run with either driver body: if the windows at
+                   positions i and j coincide, both calls return and the two outputs are the same value.
+   ts_vrank needs neither a law nor a premise on the series and holds for every OUTPUT carrier B as well: at
+   A = B = binary64 the rank arithmetic itself (additions of 1.0, `0.5 * (n_repeat - 1)`, the division by n) is
+   covered bit for bit — the output is one function of the window (`g_rank_any`), proved for every carrier.         *)
+From Tevec Require Import Spec.ExtremaOrd Proofs.CmpOrd Proofs.MaskOrd.
+
+Theorem C06_prefix_ordered_ts_vmin :
+  forall (A : Type) (NA : Num A), OrdLaws A ->
+  forall (T : Type) (DT : IsNone T A) (body : bool) (w : nat) (mp : option nat) (xs : list T) (k : nat),
+    valid_not_nan xs -> 1 <= w -> cmp_dom w mp (Nat.min k (length xs)) -> cmp_dom w mp (length xs) ->
+    exists out, ts_vmin body w mp xs = Done out /\ length out = length xs /\
+                ts_vmin body w mp (firstn k xs) = Done (firstn k out).
+Proof. intros A NA OL T DT. exact (prefix_vmin_ord OL). Qed.
+
+Theorem C06_prefix_ordered_ts_vmax :
+  forall (A : Type) (NA : Num A), OrdLaws A ->
+  forall (T : Type) (DT : IsNone T A) (body : bool) (w : nat) (mp : option nat) (xs : list T) (k : nat),
+    valid_not_nan xs -> 1 <= w -> cmp_dom w mp (Nat.min k (length xs)) -> cmp_dom w mp (length xs) ->
+    exists out, ts_vmax body w mp xs = Done out /\ length out = length xs /\
+                ts_vmax body w mp (firstn k xs) = Done (firstn k out).
+Proof. intros A NA OL T DT. exact (prefix_vmax_ord OL). Qed.
+
+Theorem C06_prefix_ordered_ts_vargmin :
+  forall (A : Type) (NA : Num A), OrdLaws A ->
+  forall (T : Type) (DT : IsNone T A) (body : bool) (w : nat) (mp : option nat) (xs : list T) (k : nat),
+    valid_not_nan xs -> 1 <= w -> cmp_dom w mp (Nat.min k (length xs)) -> cmp_dom w mp (length xs) ->
+    exists out, ts_vargmin body w mp xs = Done out /\ length out = length xs /\
+                ts_vargmin body w mp (firstn k xs) = Done (firstn k out).
+Proof. intros A NA OL T DT. exact (prefix_vargmin_ord OL). Qed.
+
+Theorem C06_prefix_ordered_ts_vargmax :
+  forall (A : Type) (NA : Num A), OrdLaws A ->
+  forall (T : Type) (DT : IsNone T A) (body : bool) (w : nat) (mp : option nat) (xs : list T) (k : nat),
+    valid_not_nan xs -> 1 <= w -> cmp_dom w mp (Nat.min k (length xs)) -> cmp_dom w mp (length xs) ->
+    exists out, ts_vargmax body w mp xs = Done out /\ length out = length xs /\
+                ts_vargmax body w mp (firstn k xs) = Done (firstn k out).
+Proof. intros A NA OL T DT. exact (prefix_vargmax_ord OL). Qed.
+
+(* ts_vrank: every input carrier A, every output carrier B, every null dictionary, every series — no law, no premise *)
+Theorem C06_prefix_unconditional_ts_vrank :
+  forall (A : Type) (NA : Num A) (T : Type) (DT : IsNone T A) (B : Type) (NB : Num B) (body : bool) (w : nat)
+         (mp : option nat) (pct rev : bool) (xs : list T) (k : nat),
+    1 <= w -> cmp_dom w mp (Nat.min k (length xs)) -> cmp_dom w mp (length xs) ->
+    exists out, ts_vrank (B := B) body w mp pct rev xs = Done out /\ length out = length xs /\
+                ts_vrank (B := B) body w mp pct rev (firstn k xs) = Done (firstn k out).
+Proof. intros A NA T DT B NB. exact prefix_vrank_any. Qed.
+
+Theorem C06_window_only_ordered_ts_vmin :
+  forall (A : Type) (NA : Num A), OrdLaws A ->
+  forall (T : Type) (DT : IsNone T A) (bx by_ : bool) (w : nat) (mp : option nat) (xs ys : list T) (i j : nat),
+    1 <= w -> valid_not_nan xs -> valid_not_nan ys -> cmp_dom w mp (length xs) -> cmp_dom w mp (length ys) ->
+    i < length xs -> j < length ys -> win w i xs = win w j ys ->
+    exists ox oy o, ts_vmin bx w mp xs = Done ox /\ ts_vmin by_ w mp ys = Done oy /\
+                    nth_error ox i = Some o /\ nth_error oy j = Some o.
+Proof. intros A NA OL T DT. exact (window_only_vmin_ord OL). Qed.
+
+Theorem C06_window_only_ordered_ts_vmax :
+  forall (A : Type) (NA : Num A), OrdLaws A ->
+  forall (T : Type) (DT : IsNone T A) (bx by_ : bool) (w : nat) (mp : option nat) (xs ys : list T) (i j : nat),
+    1 <= w -> valid_not_nan xs -> valid_not_nan ys -> cmp_dom w mp (length xs) -> cmp_dom w mp (length ys) ->
+    i < length xs -> j < length ys -> win w i xs = win w j ys ->
+    exists ox oy o, ts_vmax bx w mp xs = Done ox /\ ts_vmax by_ w mp ys = Done oy /\
+                    nth_error ox i = Some o /\ nth_error oy j = Some o.
+Proof. intros A NA OL T DT. exact (window_only_vmax_ord OL). Qed.
+
+Theorem C06_window_only_ordered_ts_vargmin :
+  forall (A : Type) (NA : Num A), OrdLaws A ->
+  forall (T : Type) (DT : IsNone T A) (bx by_ : bool) (w : nat) (mp : option nat) (xs ys : list T) (i j : nat),
+    1 <= w -> valid_not_nan xs -> valid_not_nan ys -> cmp_dom w mp (length xs) -> cmp_dom w mp (length ys) ->
+    i < length xs -> j < length ys -> win w i xs = win w j ys ->
+    exists ox oy o, ts_vargmin bx w mp xs = Done ox /\ ts_vargmin by_ w mp ys = Done oy /\
+                    nth_error ox i = Some o /\ nth_error oy j = Some o.
+Proof. intros A NA OL T DT. exact (window_only_vargmin_ord OL). Qed.
+
+Theorem C06_window_only_ordered_ts_vargmax :
+  forall (A : Type) (NA : Num A), OrdLaws A ->
+  forall (T : Type) (DT : IsNone T A) (bx by_ : bool) (w : nat) (mp : option nat) (xs ys : list T) (i j : nat),
+    1 <= w -> valid_not_nan xs -> valid_not_nan ys -> cmp_dom w mp (length xs) -> cmp_dom w mp (length ys) ->
+    i < length xs -> j < length ys -> win w i xs = win w j ys ->
+    exists ox oy o, ts_vargmax bx w mp xs = Done ox /\ ts_vargmax by_ w mp ys = Done oy /\
+                    nth_error ox i = Some o /\ nth_error oy j = Some o.
+Proof. intros A NA OL T DT. exact (window_only_vargmax_ord OL). Qed.
+
+Theorem C06_window_only_any_carrier_ts_vrank :
+  forall (A : Type) (NA : Num A) (T : Type) (DT : IsNone T A) (B : Type) (NB : Num B) (bx by_ : bool) (w : nat)
+         (mp : option nat) (pct rev : bool) (xs ys : list T) (i j : nat),
+    1 <= w -> cmp_dom w mp (length xs) -> cmp_dom w mp (length ys) ->
+    i < length xs -> j < length ys -> win w i xs = win w j ys ->
+    exists ox oy o, ts_vrank (B := B) bx w mp pct rev xs = Done ox /\ ts_vrank (B := B) by_ w mp pct rev ys = Done oy /\
+                    nth_error ox i = Some o /\ nth_error oy j = Some o.
+Proof. intros A NA T DT B NB. exact window_only_vrank_any. Qed.
+
+(* the closed form behind it: output i of ts_vrank is `g_rank_any` of window i, for every carrier pair and both bodies *)
+Theorem C06_ts_vrank_is_a_function_of_the_window :
+  forall (A : Type) (NA : Num A) (T : Type) (DT : IsNone T A) (B : Type) (NB : Num B) (body : bool) (w : nat)
+         (mp : option nat) (pct rev : bool) (xs : list T),
+    1 <= w -> 1 <= length xs ->
+    exists out, ts_vrank (B := B) body w mp pct rev xs = Done out /\ length out = length xs /\
+      forall i, i < length xs ->
+        nth_error out i = Some (g_rank_any (cmp_mp mp (cmp_window w xs)) pct rev (win w i (map to_opt xs))).
+Proof. intros A NA T DT B NB. exact ts_vrank_any. Qed.
+
+(* binary64: f64 series with NaN as the null (no premise on the series) ... *)
+Theorem C06_prefix_extrema_binary64 :
+  forall (body : bool) (w : nat) (mp : option nat) (xs : list float) (k : nat),
+    1 <= w -> cmp_dom w mp (Nat.min k (length xs)) -> cmp_dom w mp (length xs) ->
+    (exists out, ts_vmin (DT := IsNoneF64) body w mp xs = Done out /\ length out = length xs /\
+                 ts_vmin (DT := IsNoneF64) body w mp (firstn k xs) = Done (firstn k out)) /\
+    (exists out, ts_vmax (DT := IsNoneF64) body w mp xs = Done out /\ length out = length xs /\
+                 ts_vmax (DT := IsNoneF64) body w mp (firstn k xs) = Done (firstn k out)) /\
+    (exists out, ts_vargmin (DT := IsNoneF64) body w mp xs = Done out /\ length out = length xs /\
+                 ts_vargmin (DT := IsNoneF64) body w mp (firstn k xs) = Done (firstn k out)) /\
+    (exists out, ts_vargmax (DT := IsNoneF64) body w mp xs = Done out /\ length out = length xs /\
+                 ts_vargmax (DT := IsNoneF64) body w mp (firstn k xs) = Done (firstn k out)).
+Proof. exact prefix_extrema_f64. Qed.
+
+Theorem C06_window_only_extrema_binary64 :
+  forall (bx by_ : bool) (w : nat) (mp : option nat) (xs ys : list float) (i j : nat),
+    1 <= w -> cmp_dom w mp (length xs) -> cmp_dom w mp (length ys) ->
+    i < length xs -> j < length ys -> win w i xs = win w j ys ->
+    (exists ox oy o, ts_vmin (DT := IsNoneF64) bx w mp xs = Done ox /\ ts_vmin (DT := IsNoneF64) by_ w mp ys = Done oy /\
+                     nth_error ox i = Some o /\ nth_error oy j = Some o) /\
+    (exists ox oy o, ts_vmax (DT := IsNoneF64) bx w mp xs = Done ox /\ ts_vmax (DT := IsNoneF64) by_ w mp ys = Done oy /\
+                     nth_error ox i = Some o /\ nth_error oy j = Some o) /\
+    (exists ox oy o, ts_vargmin (DT := IsNoneF64) bx w mp xs = Done ox /\ ts_vargmin (DT := IsNoneF64) by_ w mp ys = Done oy /\
+                     nth_error ox i = Some o /\ nth_error oy j = Some o) /\
+    (exists ox oy o, ts_vargmax (DT := IsNoneF64) bx w mp xs = Done ox /\ ts_vargmax (DT := IsNoneF64) by_ w mp ys = Done oy /\
+                     nth_error ox i = Some o /\ nth_error oy j = Some o).
+Proof. exact window_only_extrema_f64. Qed.
+
+(* ... and Option<f64> series under the premise of DESIGN 5.4 (no Some(NaN); C03_some_nan_is_outside_the_property shows
+   that on Some(NaN) elements the model of ts_vargmin does not return) *)
+Theorem C06_prefix_extrema_option_binary64 :
+  forall (body : bool) (w : nat) (mp : option nat) (xs : list (option float)) (k : nat),
+    valid_not_nan (DT := IsNoneOptF64) xs ->
+    1 <= w -> cmp_dom w mp (Nat.min k (length xs)) -> cmp_dom w mp (length xs) ->
+    (exists out, ts_vmin (DT := IsNoneOptF64) body w mp xs = Done out /\ length out = length xs /\
+                 ts_vmin (DT := IsNoneOptF64) body w mp (firstn k xs) = Done (firstn k out)) /\
+    (exists out, ts_vmax (DT := IsNoneOptF64) body w mp xs = Done out /\ length out = length xs /\
+                 ts_vmax (DT := IsNoneOptF64) body w mp (firstn k xs) = Done (firstn k out)) /\
+    (exists out, ts_vargmin (DT := IsNoneOptF64) body w mp xs = Done out /\ length out = length xs /\
+                 ts_vargmin (DT := IsNoneOptF64) body w mp (firstn k xs) = Done (firstn k out)) /\
+    (exists out, ts_vargmax (DT := IsNoneOptF64) body w mp xs = Done out /\ length out = length xs /\
+                 ts_vargmax (DT := IsNoneOptF64) body w mp (firstn k xs) = Done (firstn k out)).
+Proof. exact prefix_extrema_optf64. Qed.
+
+Theorem C06_window_only_extrema_option_binary64 :
+  forall (bx by_ : bool) (w : nat) (mp : option nat) (xs ys : list (option float)) (i j : nat),
+    valid_not_nan (DT := IsNoneOptF64) xs -> valid_not_nan (DT := IsNoneOptF64) ys ->
+    1 <= w -> cmp_dom w mp (length xs) -> cmp_dom w mp (length ys) ->
+    i < length xs -> j < length ys -> win w i xs = win w j ys ->
+    (exists ox oy o, ts_vmin (DT := IsNoneOptF64) bx w mp xs = Done ox /\ ts_vmin (DT := IsNoneOptF64) by_ w mp ys = Done oy /\
+                     nth_error ox i = Some o /\ nth_error oy j = Some o) /\
+    (exists ox oy o, ts_vmax (DT := IsNoneOptF64) bx w mp xs = Done ox /\ ts_vmax (DT := IsNoneOptF64) by_ w mp ys = Done oy /\
+                     nth_error ox i = Some o /\ nth_error oy j = Some o) /\
+    (exists ox oy o, ts_vargmin (DT := IsNoneOptF64) bx w mp xs = Done ox /\
+                     ts_vargmin (DT := IsNoneOptF64) by_ w mp ys = Done oy /\
+                     nth_error ox i = Some o /\ nth_error oy j = Some o) /\
+    (exists ox oy o, ts_vargmax (DT := IsNoneOptF64) bx w mp xs = Done ox /\
+                     ts_vargmax (DT := IsNoneOptF64) by_ w mp ys = Done oy /\
+                     nth_error ox i = Some o /\ nth_error oy j = Some o).
+Proof. exact window_only_extrema_optf64. Qed.
+
+(* ts_vrank with binary64 input AND output (the instance the correspondence run executes): both laws, no premise *)
+Theorem C06_ts_vrank_binary64_no_lookahead :
+  forall (bx by_ : bool) (w : nat) (mp : option nat) (pct rev : bool) (xs ys : list float) (i j k : nat),
+    1 <= w ->
+    (cmp_dom w mp (Nat.min k (length xs)) -> cmp_dom w mp (length xs) ->
+     exists out, ts_vrank (DT := IsNoneF64) (B := float) bx w mp pct rev xs = Done out /\ length out = length xs /\
+                 ts_vrank (DT := IsNoneF64) (B := float) bx w mp pct rev (firstn k xs) = Done (firstn k out)) /\
+    (cmp_dom w mp (length xs) -> cmp_dom w mp (length ys) ->
+     i < length xs -> j < length ys -> win w i xs = win w j ys ->
+     exists ox oy o, ts_vrank (DT := IsNoneF64) (B := float) bx w mp pct rev xs = Done ox /\
+                     ts_vrank (DT := IsNoneF64) (B := float) by_ w mp pct rev ys = Done oy /\
+                     nth_error ox i = Some o /\ nth_error oy j = Some o).
+Proof. exact vrank_f64_no_lookahead. Qed.
+
+(* non-vacuity: premises of the ordered theorems on concrete binary64 data (OrdLaws float: C03_order_laws_binary64) *)
+Example C06_example_ordered_prefix_binary64 :
+  let xs := [1%float; nan; 3%float; 2%float; (-0)%float] in
+  1 <= 3 /\ cmp_dom 3 None (Nat.min 4 (length xs)) /\ cmp_dom 3 None (length xs) /\
+  valid_not_nan (DT := IsNoneF64) xs /\
+  ts_vargmin (DT := IsNoneF64) true 3 None xs = Done [Some 1; Some 1; Some 1; Some 3; Some 3] /\
+  ts_vargmin (DT := IsNoneF64) true 3 None (firstn 4 xs) = Done (firstn 4 [Some 1; Some 1; Some 1; Some 3; Some 3]).
+Proof.
+  intros xs. split; [lia|]. split; [cbn; lia|]. split; [cbn; lia|]. split; [exact (valid_not_nan_f64 xs)|].
+  split; vm_compute; reflexivity.
+Qed.
+Example C06_example_ordered_window_binary64 :
+  let xs := [5%float; 1%float; 2%float] in let ys := [nan; 9%float; 1%float; 2%float] in
+  1 <= 2 /\ cmp_dom 2 None (length xs) /\ cmp_dom 2 None (length ys) /\ 2 < length xs /\ 3 < length ys /\
+  win 2 2 xs = win 2 3 ys /\
+  nth_error (out_of (ts_vmax (DT := IsNoneF64) true 2 None xs)) 2 = Some (Some 2%float) /\
+  nth_error (out_of (ts_vmax (DT := IsNoneF64) false 2 None ys)) 3 = Some (Some 2%float).
+Proof.
+  intros xs ys. split; [lia|]. split; [cbn; lia|]. split; [cbn; lia|]. split; [cbn; lia|]. split; [cbn; lia|].
+  split; [reflexivity|]. split; vm_compute; reflexivity.
+Qed.
+Example C06_example_ordered_option_binary64 :
+  let xs := [Some 5%float; None; Some 2%float] in let ys := [Some 7%float; Some 1%float; None; Some 2%float] in
+  valid_not_nan (DT := IsNoneOptF64) xs /\ valid_not_nan (DT := IsNoneOptF64) ys /\
+  cmp_dom 2 (Some 1) (length xs) /\ cmp_dom 2 (Some 1) (length ys) /\ win 2 2 xs = win 2 3 ys.
+Proof.
+  intros xs ys. split; [|split; [|split; [exact I|split; [exact I|reflexivity]]]].
+  - intros v [<-|[<-|[<-|[]]]] H; try discriminate; reflexivity.
+  - intros v [<-|[<-|[<-|[<-|[]]]]] H; try discriminate; reflexivity.
+Qed.
+Example C06_example_vrank_binary64_window :
+  let xs := [5%float; 1%float; 2%float; 2%float] in let ys := [nan; 1%float; 2%float; 2%float] in
+  1 <= 3 /\ cmp_dom 3 (Some 2) (length xs) /\ cmp_dom 3 (Some 2) (length ys) /\ win 3 3 xs = win 3 3 ys /\
+  nth_error (out_of (ts_vrank (DT := IsNoneF64) (B := float) true 3 (Some 2) true false xs)) 3 = Some (0x1.aaaaaaaaaaaabp-1)%float /\
+  nth_error (out_of (ts_vrank (DT := IsNoneF64) (B := float) false 3 (Some 2) true false ys)) 3 = Some (0x1.aaaaaaaaaaaabp-1)%float.
+Proof.
+  intros xs ys. split; [lia|]. split; [exact I|]. split; [exact I|]. split; [reflexivity|]. split; vm_compute; reflexivity.
+Qed.
+
+Print Assumptions C06_prefix_ordered_ts_vmin.
+Print Assumptions C06_prefix_ordered_ts_vmax.
+Print Assumptions C06_prefix_ordered_ts_vargmin.
+Print Assumptions C06_prefix_ordered_ts_vargmax.
+Print Assumptions C06_prefix_unconditional_ts_vrank.
+Print Assumptions C06_window_only_ordered_ts_vmin.
+Print Assumptions C06_window_only_ordered_ts_vmax.
+Print Assumptions C06_window_only_ordered_ts_vargmin.
+Print Assumptions C06_window_only_ordered_ts_vargmax.
+Print Assumptions C06_window_only_any_carrier_ts_vrank.
+Print Assumptions C06_ts_vrank_is_a_function_of_the_window.
+Print Assumptions C06_prefix_extrema_binary64.
+Print Assumptions C06_window_only_extrema_binary64.
+Print Assumptions C06_prefix_extrema_option_binary64.
+Print Assumptions C06_window_only_extrema_option_binary64.
+Print Assumptions C06_ts_vrank_binary64_no_lookahead.
